@@ -150,6 +150,18 @@ type Program struct {
 	// Schedule is the scheduler's choice stream (CONC engines): at each decision
 	// point the next value selects among the enabled actions (mod their number).
 	Schedule []int `json:"schedule,omitempty"`
+	// Holds are long delays (CONC engines): the Nth time the task parks at a site
+	// with the given prefix it is not run again for the next Len decisions (a slow
+	// remote call, a goroutine that is not scheduled for a long time) unless
+	// nothing else can run.
+	Holds []Hold `json:"holds,omitempty"`
+}
+
+type Hold struct {
+	Task int    `json:"task"`
+	Site string `json:"site"`
+	Nth  int    `json:"nth"`
+	Len  int    `json:"len"`
 }
 
 func (p *Program) Clone() *Program {
